@@ -16,7 +16,7 @@ RULE = (
     "tables of 1-40 entries with texts of 1-3 characters over a small alphabet (so that 'a','b','ab','abc' style overlaps are common; also space, '[', '='), codes of 1-2 bytes, "
     "unique texts; a sub-family with unique prefix-free codes (and a sub-sub-family with single-character texts); strings over the alphabet + unknown characters + [0xN]/[0xNN] escapes + "
     "near-escapes.  Oracle: vlib/model/table.py encode(); round trip to_text(to_bytes(s)) == matched entry texts (prefix-free family, no escapes), == s for single-character tables; in programs: "
-    ".text bytes, scope inheritance / override / sibling isolation of .table, label after .text == start + len.  Non-trivial = a position where >=2 entries match, or an escape, or an unknown "
+    ".text bytes, scope inheritance / override / sibling isolation of .table, label after .text == start + len; one `.text` statement expanded several times (macro body applied under different tables, loop bodies, a macro that loads its own table) uses the table visible where it is expanded.  Non-trivial = a position where >=2 entries match, or an escape, or an unknown "
     "character; distinct by case hash."
 )
 LEVEL_TEXT = "Differential exploration against an independent tokeniser over generated table/string pairs, both at the Table API and through assembled programs (scoping and occupied size)."
